@@ -121,7 +121,7 @@ def check_reassembly(case):
     counts = case["counts"]
     msgs = []
     for k, nblocks in enumerate(counts):
-        hd = {"system": 0x100 + k, "device_id": 5 + k, "stream": 1 + k, "function": 2 * k + 1, "r": k % 2, "w": (k + 1) % 2}
+        hd = {"system": 0x100 + (0 if case.get("objects") else k), "device_id": 5 + k, "stream": 1 + k, "function": 2 * k + 1, "r": k % 2, "w": (k + 1) % 2}
         n = 244 * (nblocks - 1) + (17 + k if nblocks else 0)
         body = body_of(n, k * 31)
         raws = e4.split(hd["device_id"], hd["r"], hd["w"], hd["stream"], hd["function"], hd["system"], body)
@@ -129,6 +129,8 @@ def check_reassembly(case):
     order = case["order"]
     settings = secsgem.secsi.SecsISettings(port="VIRT", device_type=secsgem.common.DeviceType.HOST)
     proto = secsgem.secsi.SecsIProtocol(settings)
+    if case.get("objects"):
+        return _reassembly_objects(case, msgs)
     got = []
     proto.events.message_received += lambda data: got.append(data["message"])
     idx = [0] * len(counts)
@@ -162,6 +164,36 @@ def check_reassembly(case):
     incomplete = getattr(proto, "_incomplete_messages", None)
     if incomplete:
         out.append(("C16|reassembly-leaves-incomplete-messages", {"case": case, "n": len(incomplete)}))
+    return {"v": out, "nt": True}
+
+
+def _reassembly_objects(case, msgs):
+    """Message k is received by protocol object k (one object per message, e.g. two serial ports); all messages carry the SAME system
+    bytes and their blocks arrive interleaved: every object delivers exactly its own message."""
+    out = []
+    protos, gots = [], []
+    for k in range(len(msgs)):
+        st = secsgem.secsi.SecsISettings(port=f"VIRT{k}", device_type=secsgem.common.DeviceType.HOST)
+        p = secsgem.secsi.SecsIProtocol(st)
+        g = []
+        p.events.message_received += lambda data, g=g: g.append(data["message"])
+        protos.append(p)
+        gots.append(g)
+    idx = [0] * len(msgs)
+    try:
+        for k in case["order"]:
+            raw = msgs[k][2][idx[k]]
+            idx[k] += 1
+            protos[k]._dispatch_block(protos[k], _sm.SecsIBlock.decode(raw))
+    except Exception as exc:  # noqa: BLE001
+        return {"v": [("C16|reassembly-objects-raises", {"case": case, "error": repr(exc)})], "nt": True}
+    for k, (hd, body, _raws) in enumerate(msgs):
+        g = gots[k]
+        if len(g) != 1:
+            out.append((f"C16|reassembly-objects|delivery-count={len(g)}", {"case": case, "object": k}))
+        elif bytes(g[0].data) != body or g[0].header.stream != hd["stream"]:
+            out.append(("C16|reassembly-objects|object-delivers-blocks-of-another-object", {"case": case, "object": k, "got_len": len(g[0].data),
+                                                                                         "want_len": len(body), "stream": g[0].header.stream}))
     return {"v": out, "nt": True}
 
 
@@ -247,6 +279,10 @@ def cases(ctx):
     for counts in ([3, 2], [2, 2, 2], [3, 2, 1]) + (([4, 3], [3, 3, 2]) if thorough else ()):
         for order in merges(counts):
             yield {"kind": "reasm", "counts": counts, "order": order}
+    # the same interleavings with one protocol object per message and equal system bytes
+    for counts in ([3, 2], [2, 2, 2]):
+        for order in merges(counts):
+            yield {"kind": "reasm", "counts": counts, "order": order, "objects": True}
     # corruption: every position x every other value
     # (base header: checksum >= 0x100; small header: checksum < 0x100, so a one-byte change can zero the field)
     small = {"device_id": 0, "r": 0, "w": 0, "stream": 1, "function": 2, "system": 3}
